@@ -194,3 +194,38 @@ def make_plugin(filt=None, stop=None, color=False, unprocessed=True):
         bps[b.location] = b
     return {'out': out, 'err': err, 'plugin': pl, 'ctl': ctl, 'cm': cm, 'bps': bps, 'commands': dict(gdb._state.commands),
             'clock': t, 'output': o}
+
+
+def closure_from_print(m, side='client', conn=None, thread=1, repo=None):
+    """Convert a structured *printed* message (the wlprint format used for logs) into
+    the closure libwayland would hold for it, so the same history can be fed to GDB
+    mode and to log mode.  Declared interfaces of nil / object arguments come from the
+    independent XML reader."""
+    from .ref import protoxml
+    from . import sut
+    top = protoxml.shipped(repo or sut.REPO)
+    decl = None
+    if m['iface'] in top:
+        decl = top[m['iface']][0].messages.get(m['name'])
+    args = []
+    for i, a in enumerate(m['args']):
+        d = decl[i] if decl and i < len(decl) else (None, None, None, None)
+        k = a[0]
+        if k == 'int':
+            args.append(['int', a[1]] if a[1] < 0 else ['uint', a[1]])
+        elif k in ('fixed', 'fd', 'str'):
+            args.append(list(a))
+        elif k == 'nil':
+            args.append(['nil', d[2]])
+        elif k == 'obj':
+            args.append(['obj', a[1], a[2]])
+        elif k == 'new':
+            args.append(['new', a[1], a[2]])
+        elif k == 'array':
+            args.append(['array', [0] * (a[1] // 4)])
+        else:
+            raise ValueError(a)
+    sent = m['sent']
+    via = 'send' if sent else 'invoke'
+    return {'sent': sent, 'side': side, 'via': via, 'conn': conn if conn is not None else int(m.get('conn') or 0),
+            'thread': thread, 'iface': m['iface'], 'id': m['id'], 'name': m['name'], 'sig': signature_of(args), 'args': args}
